@@ -11,8 +11,30 @@
    explicit outcome [PPanic].  No proofs here. *)
 From Coq Require Import ZArith List Bool.
 Import ListNotations.
-Require Import RV.Lib.DecCore.
 Open Scope Z_scope.
+
+(* Integer types and floor roots.  These few definitions are the same as in Lib/DecCore.v (the
+   fixed-point core of C24-C27); they are repeated here so that this model does not have to be
+   recompiled whenever that library is being extended. *)
+Record ity := { ibits : Z; isigned : bool }.
+Definition imin (t : ity) : Z := if isigned t then - 2 ^ (ibits t - 1) else 0.
+Definition imax (t : ity) : Z := if isigned t then 2 ^ (ibits t - 1) - 1 else 2 ^ ibits t - 1.
+Definition in_ity (t : ity) (z : Z) : bool := (imin t <=? z) && (z <=? imax t).
+Definition SI (b : Z) : ity := {| ibits := b; isigned := true |}.
+Definition I192 := SI 192.  Definition I256 := SI 256.  Definition I384 := SI 384.
+(* floor n-th root of x >= 0 for n >= 1 by bisection; invariant lo^n <= x < hi^n *)
+Fixpoint iroot_go (fuel : nat) (n x lo hi : Z) : Z :=
+  match fuel with
+  | O => lo
+  | S k =>
+    if hi - lo <=? 1 then lo else
+    let mid := (lo + hi) / 2 in
+    if mid ^ n <=? x then iroot_go k n x mid hi else iroot_go k n x lo mid
+  end.
+Definition iroot (n x : Z) : Z :=
+  if x <=? 0 then 0 else
+  iroot_go (S (S (Z.to_nat (Z.log2 x)))) n x 0 (2 ^ (Z.log2 x / n + 1)).
+Definition troot (n x : Z) : Z := if x <? 0 then - iroot n (- x) else iroot n x.
 
 Definition DD : Z := 10 ^ 18.        (* Decimal::ONE in attos = 10^(36-18) *)
 Definition PP : Z := 10 ^ 36.        (* PreciseDecimal::ONE in subunits *)
